@@ -3,4 +3,5 @@
 #include "json.h"
 void dump_value(const char *key, json_object *o);
 void dump_none(const char *key);
+extern int dump_bits;
 #endif
